@@ -87,7 +87,7 @@ def entries():
     E["cumsum"] = reducer(False)
     E["argmax"] = reducer(False)
     E["argmin"] = reducer(False)
-    E["count_nonzero"] = reducer(False)
+    E["count_nonzero"] = reducer(True)       # numpy.count_nonzero takes keepdims (D42)
     E["nonzero"] = lambda rng, mk: ((mk(_shape(rng, 1, 2)),), {})
 
     @reg("reshape")
